@@ -382,3 +382,92 @@ def check_C07(ctx):
                       "unrelated allocation and a re-open; non-trivial = variant whose fault fired",
                       ASSUME_COMMON + ["a write that landed completely but reported an error is ambiguous and not driven",
                                        "Exist() has no error result and is not driven under faults"])
+
+
+# ------------------------------------------------------------------- C18
+def check_C18(ctx):
+    for n in range(4):
+        ctx.model_check("Iter.tla", "MC_Iter_%d.cfg" % n, workers=4)
+    chunks = q(ctx, 4, 8)
+    def one(i):
+        out = os.path.join(ctx.work, "iter-%d.ndjson" % i)
+        out2 = os.path.join(ctx.work, "nested-%d.ndjson" % i)
+        args = ["iter", "-seed", ctx.seed * 100 + i, "-maxn", q(ctx, 4, 6), "-len", q(ctx, 5, 7), "-out", out,
+                "-out2", out2, "-nested", q(ctx, 30, 150)]
+        st, poisoned = ctx.drive(args, timeout=1800)
+        cmd = " ".join(map(str, [ctx.bin] + args))
+        r = ctx.validate(out, {"C18"}, module="Trace_Iter.tla", cfg="Trace_Iter.cfg", cmdline=cmd)
+        if os.path.exists(out2) and os.path.getsize(out2) > 0:
+            ctx.validate(out2, {"C18", "C04"}, cmdline=cmd)
+        return st
+    with ThreadPoolExecutor(max_workers=4) as ex:
+        sts = list(ex.map(one, range(chunks)))
+    ctx.coverage_extra["iterator_words_run"] = sum(s["events"] for s in sts)
+    ctx.coverage_extra["nested_histories"] = sum((s.get("extra") or {}).get("nested_histories", 0) for s in sts)
+    return ctx.finish("model_checking",
+                      "exhaustive incl. liveness: Iter.tla (two unbuffered channels + close flags, producer wrapped around a visit of 0..3 "
+                      "items) for every Next/Close word of <= 6 calls: results equal the sequential meaning, no send on a closed channel, a "
+                      "consumer inside Next() always returns, after Close()/exhaustion the producer exits and the pin is released (weak "
+                      "fairness on producer and rendezvous); conformance: every word of <= 5 (quick) / 7 (thorough) calls on real "
+                      "iterators over 0..4 (6) items, both directions, memory and file-backed: per-call results, producer exit (hook "
+                      "event), version reference count back to its value, goroutine count back to baseline, later reclamation works; "
+                      "visits whose callbacks call Get/Min/Max/Visit/Totals/Set/Delete on the same store must not deadlock and must "
+                      "deliver the contents at their start",
+                      ASSUME_COMMON + ["goroutine exit is observed through the verif-tag hook event and runtime.NumGoroutine"])
+
+
+# ------------------------------------------------------------------- C17
+def check_C17(ctx):
+    ctx.model_check("MC_Store.tla", q(ctx, "MC_Store_map.cfg", "MC_Store_map_thorough.cfg"))
+    # reference counting (C15) needs the counting callbacks by definition: it
+    # is judged by its own check, not as a with/without difference
+    ALL = {"C%02d" % i for i in range(1, 20)} - {"C15"}
+    plan = []
+    masks_q = [511, 511, 1 | 2, 4 | 8 | 16, 32 | 64 | 128, 256]
+    import random
+    rnd = random.Random(ctx.seed)
+    masks_t = list(range(0, 9)) and [1 << b for b in range(9)] + [511] * 3 + [rnd.randrange(1, 512) for _ in range(12)]
+    masks = q(ctx, masks_q, masks_t)
+    profs = ["map", "durable", "visit", "copy", "snap", "lazy"]
+    for i, m in enumerate(masks):
+        plan.append((profs[i % len(profs)], m, i, (i % 2 == 1) and (m & 224 == 224)))
+    base_clean = {}
+    def run(job, mask):
+        prof, m, i, slab = job
+        seed = ctx.seed * 1000 + 900 + i
+        out = os.path.join(ctx.work, "cb-%s-%d-%d.ndjson" % (prof, i, mask))
+        args = ["seq", "-seed", seed, "-n", q(ctx, 8, 30), "-steps", q(ctx, 120, 300), "-profile", prof, "-cb", mask,
+                "-nkeys", 12, "-out", out, "-prop", ctx.prop, "-memevery", 6]
+        if slab and mask:
+            args.append("-slab")
+        ctx.drive(args)
+        return out, " ".join(map(str, [ctx.bin] + args))
+    def one(job):
+        # the same seeded histories without callbacks: a deviation that shows
+        # there too is not caused by the callbacks
+        out0, cmd0 = run(job, 0)
+        sub = type(ctx).__new__(type(ctx))
+        sub.__dict__.update(ctx.__dict__)
+        sub.violations, sub.notes, sub.known_hits, sub.nfail = [], [], [], 0
+        sub.traces = sub.events = 0
+        sub.samples = [1]
+        sub.validate(out0, ALL, cmdline=cmd0)
+        os.remove(out0)
+        if sub.violations:
+            ctx.notes.append("histories of job %s deviate even without callbacks (%s): not a C17 matter" %
+                             (job[:3], sub.violations[0]["cat"]))
+            return
+        out, cmd = run(job, job[1])
+        ctx.validate(out, ALL, cmdline=cmd)
+        if not any(out in json.dumps(v) for v in ctx.violations):
+            os.remove(out)
+    with ThreadPoolExecutor(max_workers=6) as ex:
+        list(ex.map(one, plan))
+    ctx.coverage_extra["callback_masks"] = masks
+    return ctx.finish("model_checking",
+                      "no specification of its own: the histories of the other properties (map, durable, visit, copy, snapshot, lazy profiles) "
+                      "are re-run with neutral StoreCallbacks installed (masks: all nine, each single one, pairs, random subsets; value "
+                      "callbacks in a plain chunked flavour and a slab-like flavour where Item.Val holds only the head of the value) and "
+                      "validated by the same TLA+ trace specification, including the independent decode of every flushed image; each job is "
+                      "first run with no callbacks on the same seed, so that only deviations caused by the callbacks count",
+                      ASSUME_COMMON + ["the harness's neutral callbacks are themselves correct (same bytes, chunked I/O, identity hooks)"])
